@@ -411,7 +411,7 @@ def Prov.clone (p : Prov) : Option Prov := p.guard (fun s => { p with set := s, 
 
 /-- default of the model driver: `false` = /repo as it is (F1 present); set to `true` once hooks/C13-fix.patch is
 committed (the op line `mode fixed|current` overrides it per case). -/
-def liveFixed : Bool := false
+def liveFixed : Bool := true
 
 /-- the completely-full-chunk flag (run containers), recomputed after a mutation -/
 def hasFullChunk (w : Width) (s : S) : Bool :=
